@@ -183,7 +183,7 @@ package iobroker
 // value obtained in this call identifies the request).
 //@ func Broker.ConnectInOut(b, ctx, sl, addr, w, r)
 //@   locals b ctx sl addr w r key wg
-//@   props C06 C04
+//@   props C06 C04 C02 C03 C01
 //@   ghost rid int = 0
 //@   ghost nTok int = 0
 //@   ghost nIn int = 0
